@@ -34,7 +34,9 @@ TRUSTED_BASE = BASE_TRUSTED + [
 RULE = ('kernels: seeded values in [-1e3,1e3] plus 0/inf/nan, coefficient numbers 0..6; system: seeded lenses (2-4 '
         'surfaces, optional asphere/polynomial/Chebyshev/tilted surface, optional radius pickup), variable sets over all '
         'nine variable types, scaled/unscaled, bounded/unbounded; five front ends (DE with workers=1 and 2), sequences '
-        'of optimise/undo; non-trivial = the optimiser moved at least one variable')
+        'of optimise/undo incl. optimise/optimise/undo/undo; boundary block: min_val/max_val in {0, -0.0, negative, equal, '
+        '= current value, None} for every variable class scaled and unscaled, and optimiser runs with a variable at 0 '
+        'whose limit is 0 and the optimum beyond it; non-trivial = the optimiser moved at least one variable')
 PARTIAL = [
     'the state/merit/not-worse/bounds/undo theorems are about the REPAIRED optimize()/undo() (optimize_fixed, undo_fixed); '
     'for the code as written the same statements are refuted (coq/Findings/F_C14.v) and listed as findings',
@@ -54,6 +56,8 @@ Definition mkstore (l : list (coord * float)) : @store FOps :=
   fun c => match find (fun p => coord_eqb (fst p) c) l with Some p => snd p | None => 0%float end.
 Definition oeq (tol : float) (a b : option float) : bool :=
   match a, b with Some x, Some y => close tol x y | None, None => true | _, _ => false end.
+Definition osame (a b : option float) : bool :=
+  match a, b with Some x, Some y => same x y | None, None => true | _, _ => false end.
 Definition beq (tol : float) (p q : option float * option float) : bool :=
   oeq tol (fst p) (fst q) && oeq tol (snd p) (snd q).
 Definition rd (s : @store FOps) (cs : list coord) : list float := map s cs.
@@ -373,6 +377,82 @@ def gen_handle_cases(rng, n):
     return cases
 
 
+# ---------------------------------------------------------------------------------------------
+# boundary values of min_val / max_val (0, -0.0, negative, equal to each other, equal to the current value,
+# None on either side) for every variable class, scaled and unscaled
+# ---------------------------------------------------------------------------------------------
+def boundary_lenses():
+    out = []
+    for st in ('even_asphere', 'polynomial', 'chebyshev'):
+        s1 = {'radius': 60.0, 'conic': 0.0, 'thickness': 5.0, 'n': 1.6, 'stop': True}
+        s2 = {'radius': -80.0, 'conic': -0.4, 'thickness': 70.0, 'n': None, 'type': st, 'rx': 0.004, 'dy': -0.1}
+        s2['coefficients'] = [0.0, 1e-7, -2e-9] if st == 'even_asphere' else [[0.0, 1e-4], [-2e-4, 0.0]]
+        out.append({'surfs': [s1, s2], 'epd': 8.0, 'fields': [0.0, 2.0], 'wl': [0.55], 'pickups': []})
+    return out
+
+
+def bound_patterns(raw):
+    a = abs(raw) + 1.0
+    return [(0.0, None), (None, 0.0), (-a, 0.0), (0.0, a), (0.0, 0.0), (-a, -0.0), (raw, raw), (raw, None), (None, raw),
+            (-a - 4.0, -a), (None, None)]
+
+
+def gen_boundary_handle_cases():
+    cases = []
+    for lens in boundary_lenses():
+        seen = set()
+        vars_ = []
+        for c in candidate_vars(lens):
+            key = (c[0], c[1]) if c[0] in ('radius', 'conic') else c[0]
+            if key in seen:
+                continue
+            seen.add(key)
+            raw = raw_of(lens, c)
+            for scaled in (True, False):
+                for mn, mx in bound_patterns(raw):
+                    v = {'type': c[0], 'surf': c[1], 'a': c[2], 'b': c[3], 'scaled': scaled}
+                    if mn is not None:
+                        v['min'] = mn
+                    if mx is not None:
+                        v['max'] = mx
+                    vars_.append(v)
+        cases.append({'lens': lens, 'vars': vars_, 'ops': [], 'coords': coords_for(lens, vars_[:1])})
+    return cases
+
+
+BOUNDARY_VARS = [('conic', 1, 0, 0, 0.6), ('asphere_coeff', 1, 1, 0, 2e-7), ('decenter', 1, 1, 0, 0.4), ('tilt', 1, 0, 0, 0.01),
+                 ('conic', 2, 0, 0, 0.6), ('asphere_coeff', 1, 0, 0, 2e-5)]
+BOUNDARY_FES = [('generic', {'disp': False, 'maxiter': 40}), ('least_squares', {'maxiter': 40}),
+                ('dual_annealing', {'maxiter': 5, 'disp': False}),
+                ('differential_evolution', {'maxiter': 3, 'disp': False, 'workers': 1}), ('compensator:generic', {})]
+
+
+def gen_boundary_opt_cases(rng, n):
+    """a variable sitting at 0 with 0 as its upper (or lower) limit, and a merit function whose optimum lies
+    beyond that limit in one of the two orientations: the returned lens must still respect the limit"""
+    cases = []
+    for i in range(n):
+        t, k, a, b, span = BOUNDARY_VARS[(i // 2) % len(BOUNDARY_VARS)]
+        fe, kw = BOUNDARY_FES[(i // 2 + i // (2 * len(BOUNDARY_VARS))) % len(BOUNDARY_FES)]
+        lens = {'surfs': [{'radius': rng.uniform(50, 70), 'conic': 0.0, 'thickness': 5.0, 'n': 1.6, 'stop': True,
+                           'type': 'even_asphere', 'coefficients': [0.0, 0.0, 0.0]},
+                          {'radius': -rng.uniform(70, 90), 'conic': 0.0, 'thickness': rng.uniform(60, 75), 'n': None}],
+                'epd': 10.0, 'fields': [0.0, 2.0], 'wl': [0.55], 'pickups': []}
+        v = {'type': t, 'surf': k, 'a': a, 'b': b, 'scaled': rng.random() < 0.5}
+        if i % 2 == 0:
+            v['min'], v['max'] = -span, 0.0
+        else:
+            v['min'], v['max'] = 0.0, span
+        ops = [{'type': 'real_y_intercept', 'target': rng.choice([-0.3, 0.3]), 'weight': 3.0,
+                'data': {'surface_number': -1, 'Hx': 0.0, 'Hy': 0.0, 'Px': 0.0, 'Py': 1.0, 'wavelength': 0.55}},
+               {'type': 'real_y_intercept', 'target': rng.choice([-0.2, 0.2]), 'weight': 3.0,
+                'data': {'surface_number': -1, 'Hx': 0.0, 'Hy': 0.0, 'Px': 0.0, 'Py': 0.0, 'wavelength': 0.55}}]
+        steps = ['opt', 'opt', 'undo', 'undo'] if fe in ('generic', 'least_squares') else ['opt']
+        cases.append({'lens': lens, 'vars': [v], 'ops': ops, 'coords': coords_for(lens, [v]), 'frontend': fe, 'kwargs': kw,
+                      'steps': steps, 'np_seed': rng.randrange(10 ** 6), 'boundary': True})
+    return cases
+
+
 def check_handle(cases, obs, tag):
     """returns (disagreements, nontrivial, kin) - Coq model vs implementation, plus the direct oracle"""
     B = Bools()
@@ -471,7 +551,15 @@ def check_kin(cases, obs, man, tag):
                 B.add((ci, 'kbounds-signature', vi), 'false')
                 continue
             n += 1
-            B.add((ci, 'kbounds', vi), f'(let \'(lo, hi) := k_{kn} FOps {" ".join(args)} in same lo {fx(hx(b[0]))} && same hi {fx(hx(b[1]))})')
+            kinds = [o_['kind'] for o_ in man[kn]['outputs']]
+            cmp_ = []
+            for nm, kd, got in zip(('lo', 'hi'), kinds, b):
+                got = hx(got)
+                if kd == 'optnum':
+                    cmp_.append(f'osame {nm} {cq_opt(got)}')
+                else:
+                    cmp_.append(f'same {nm} {fx(got)}' if got is not None else 'false')
+            B.add((ci, 'kbounds', vi), f'(let \'(lo, hi) := k_{kn} FOps {" ".join(args)} in {" && ".join(cmp_)})')
     bad = B.run(tag)
     return [{'clause': 'kernel', 'label': list(map(str, b)), 'violates_property': False} for b in sorted(bad, key=str)], n
 
@@ -814,7 +902,7 @@ def system_checks(ctx):
     except RuntimeError as e:
         yield {'name': 'batched-scale-kernels', 'n': 0, 'error': str(e)}
     # (a) handles
-    cases = gen_handle_cases(rng, ctx.n(30, 400))
+    cases = gen_boundary_handle_cases() + gen_handle_cases(rng, ctx.n(30, 400))
     res = {'name': 'variable-handles-vs-model', 'n': len(cases), 'nontrivial': 0, 'samples': [], 'disagreements': []}
     try:
         obs = vlib.run_python(HARNESS, {'mode': 'handle', 'cases': cases})
@@ -846,7 +934,7 @@ def system_checks(ctx):
         res['error'] = str(e)
     yield res
     # (c) optimise / undo
-    cases = gen_opt_cases(rng, ctx.n(21, 210))
+    cases = gen_opt_cases(rng, ctx.n(21, 210)) + gen_boundary_opt_cases(rng, ctx.n(10, 60))
     res = {'name': 'optimise-undo-vs-model', 'n': len(cases), 'nontrivial': 0, 'samples': [], 'disagreements': []}
     try:
         obs = run_opt_cases(cases, 'C14o')
@@ -857,6 +945,7 @@ def system_checks(ctx):
             fes[k] = fes.get(k, 0) + 1
         res['histogram'] = {'frontends': fes, 'clauses_violated': hist,
                             'with_pickups': sum(1 for c in cases if c['lens']['pickups']),
+                            'boundary_runs': sum(1 for c in cases if c.get('boundary')),
                             'd07_configurations': sum(1 for c in cases if d07_config(c['vars']))}
         res['samples'] = [{'frontend': cases[0]['frontend'], 'vars': cases[0]['vars'], 'steps': cases[0]['steps']}]
     except RuntimeError as e:
@@ -870,13 +959,13 @@ def system_checks(ctx):
 def search(ctx, broken, disagreements):
     rng = random.Random(ctx.seed * 77 + 5)
     found = []
-    cases = gen_handle_cases(rng, ctx.n(40, 300))
+    cases = gen_boundary_handle_cases() + gen_handle_cases(rng, ctx.n(40, 300))
     obs = vlib.run_python(HARNESS, {'mode': 'handle', 'cases': cases})
     found += [d for d in _handle_oracle(cases, obs)]
     cases = gen_merit_cases(rng, ctx.n(30, 200))
     obs = vlib.run_python(HARNESS, {'mode': 'merit', 'cases': cases})
     found += [d for d in check_merit_oracle(cases, obs)]
-    cases = gen_opt_cases(rng, ctx.n(28, 140))
+    cases = gen_boundary_opt_cases(rng, ctx.n(12, 60)) + gen_opt_cases(rng, ctx.n(28, 140))
     obs = run_opt_cases(cases, 'C14s')
     hist = {}
     for ci, (c, o) in enumerate(zip(cases, obs)):
